@@ -7,7 +7,8 @@ stores everything in /verif/seeded/<seeded-id>/ and removes the worktrees."""
 import json, os, subprocess, sys, time
 
 prop, tag, sid = sys.argv[1:4]
-checks = sys.argv[4:] or [prop]
+checks = sys.argv[4:]
+# no check ids given: confirmation only (demo with/without the patch + the repository's suite with it)
 out = f"/tmp/mw/out_{prop}_{tag}"
 agent_wt = f"/tmp/mw/{prop}_{tag}"
 dst = f"/verif/seeded/{sid}"
@@ -55,6 +56,12 @@ for c in checks:
 os.makedirs(dst, exist_ok=True)
 sh(f"cp {out}/patch.diff {out}/demo.py {dst}/; [ -f {out}/notes.md ] && cp {out}/notes.md {dst}/")
 ok = clean.returncode == 0 and mut.returncode != 0 and " failed" not in suite_last and "error" not in suite_last.lower() and "passed" in suite_last
+if os.path.exists(f"{dst}/meta.json"):
+    try:
+        old = json.load(open(f"{dst}/meta.json"))
+        results = dict(old.get("checks_quick_at_first_run", {}), **results)
+    except Exception:
+        pass
 meta = {"id": sid, "property": prop, "confirmed": ok,
         "repo_head": sh("git -C /repo rev-parse --short HEAD").stdout.strip(),
         "files_changed": files,
@@ -64,5 +71,5 @@ meta = {"id": sid, "property": prop, "confirmed": ok,
                          "demo_tail_with_patch": (mut.stdout + mut.stderr)[-600:]},
         "checks_quick_at_first_run": results}
 json.dump(meta, open(f"{dst}/meta.json", "w"), indent=1)
-sh(f"cd /repo && git worktree remove --force {wt}; git worktree remove --force {agent_wt} 2>/dev/null; git worktree prune")
+sh(f"cd /repo && git worktree remove --force {wt}; git worktree prune")
 print("CONFIRMED" if ok else "NOT CONFIRMED", dst)
